@@ -251,7 +251,9 @@ def gen_tree(r, dw, depth):
         c["name"] = r.choice([None, "n"])
         c["explicit"] = r.random() < 0.3
         c["align_to"] = r.choice([None, None, r.randint(0, need - 1)])
-    return {"kind": "dec", "aw": need, "al": r.choice([0, 0, 1]), "children": children}
+    # decoder alignments above a child's address width pad its window: the padding holds nothing
+    al = r.choice([0, 0, 1, 2, 3])
+    return {"kind": "dec", "aw": max(need, al + 2), "al": al, "children": children}
 
 
 _uid = [0]
